@@ -1110,7 +1110,8 @@ cannot obtain lock: %s", STRERR);
 	memcpy(stmp + 2U, "MPLETED:", strlenof("MPLETED:"));
 	fdwrite(stmp, nstmp);
 
-	with (size_t cmdz = strlen(t->t->cmd)) {
+	if (LIKELY(t->t->cmd != NULL)) {
+		const size_t cmdz = strlen(t->t->cmd);
 		static char fld[] = "SUMMARY:";
 		char sum[cmdz + strlenof(fld) + 1U];
 		size_t si;
